@@ -14,8 +14,8 @@ variant_flags() {
   case "$1" in
     asan)
       CXX=clang++
-      LIBFLAGS="-O1 -g -fno-omit-frame-pointer -fsanitize=address -fsanitize=bounds,null,shift,signed-integer-overflow,integer-divide-by-zero,unreachable,return,bool,enum -fno-sanitize-recover=all"
-      SIMFLAGS="$LIBFLAGS"
+      SIMFLAGS="-O1 -g -fno-omit-frame-pointer -fsanitize=address -fsanitize=bounds,null,shift,signed-integer-overflow,integer-divide-by-zero,unreachable,return,bool,enum -fno-sanitize-recover=all"
+      LIBFLAGS="$SIMFLAGS -fsanitize-coverage=trace-pc-guard"   # edges of library code are counted (edgecount.cpp): C02 promptness
       LDFLAGS="-fsanitize=address -fsanitize=bounds,null,shift,signed-integer-overflow,integer-divide-by-zero,unreachable,return,bool,enum"
       DEFS="-DSIM_VARIANT_ASAN"
       ;;
